@@ -1501,6 +1501,13 @@ def forwarding_rules(ctx, items, rule="R-FWD"):
     callee (directly or through a helper). With an edge: every path from that edge to the exit does."""
     for it in items:
         fid, rx, inst, why = it[:4]
+        if ctx.prog.fn(fid) is None:
+            # a private helper that was merged into its callers (they perform the primitive themselves now, where the other rules see it):
+            # it existed in the reference tree, and every function that called it there is still present
+            rc = (getattr(ctx.prog, "ref_callers", None) or {}).get(fid)
+            if rc and all(c.split("::{closure")[0] in ctx.prog.fns for c in rc):
+                ctx.ob(rule, fid, inst, True, "%s no longer exists: merged into its callers %s" % (fid, sorted(rc)), None, nontrivial=False)
+                continue
         B = Call(rx)
         if len(it) > 4:
             ctx.must_follow(fid, None, B, inst, why, rule=rule, edge=it[4], edge_label=it[5])
@@ -2226,3 +2233,29 @@ def event_loop_never_returns(ctx, rule="R-EXIT"):
            "EventLoop::run can return: the worker thread ends and everything routed to it (its global queue, its epoll instance, its io timers) is never served again", f.where(rets[0]) if rets else f.where(),
            detail=ctx.an.fmt_path(f, ctx.an.path(f, [Point(0, 0)], rets)) if rets else None)
     ctx.must_call(EL, Call(r"may::io::sys::select::Selector::select", transitive=False), "worker/event-loop-selects", "the worker loop polls its selector") if False else None
+
+
+def registered_sockets_are_nonblocking(ctx, rule="R-SIB"):
+    """(seed C17-8) every fd that is registered with a selector is in non-blocking mode: a blocking syscall on it would sit in the kernel on the
+    worker thread, which is also the selector of every fd with fd % workers == id - their coroutines stay suspended with data in the kernel.
+    Sibling rule over all callers of add_socket: the registration is preceded by set_nonblocking(true) in the same function."""
+    n = 0
+    for gid, lst in sorted(ctx.callers_of(r"may::io::sys::add_socket").items()):
+        g = lst[0][0]
+        n += 1
+        ctx.fns_touched.add(g.id)
+        adds = set(pt for (_, pt, _) in lst)
+        nbs = [pt for pt in g.points() if g.is_term(pt) and g.node(pt)["t"] == "call" and re.search(r"set_nonblocking$", callee_name(g.node(pt)) or "")]
+        good = set(pt for pt in nbs if const_int(g, g.node(pt)["args"][-1]) == 1)
+        r = ctx.an.reach(g, [Point(0, 0)], blocked=good)
+        # set_nonblocking(true) before the registration, or after it on every path on which the function still returns
+        def after_success(a):
+            # where the function continues when this registration succeeded: the Ok edge(s) of its result if it is tested here
+            es = ctx.edges(g, lambda at: at.kind == "variant" and at.name in ("Ok", "Continue") and root_of(simplify(at.origin))[0] == "call" and root_of(simplify(at.origin))[1] == a.bb)
+            return [Point(tb, 0) for _, tb, _ in es] if es else ctx.an.after(g, a)
+        bad = sorted(a for a in adds if a in r and any(x in ctx.an.reach(g, after_success(a), blocked=good) for x in g.ret_points()))
+        ctx.ob(rule, gid, "registered-socket-is-nonblocking", not bad, "%s puts the socket into non-blocking mode on every path on which it registers it with the selector" % gid if not bad else
+               "%s registers a socket with the selector without set_nonblocking(true) on the way: a later read/write on it blocks the worker thread in the kernel (and with it the selector that "
+               "serves every fd of that worker)" % gid, g.where(bad[0]) if bad else g.where(sorted(adds)[0]))
+    if n < 6:
+        ctx.missing(rule, "may::io::sys::add_socket", "registered-socket-is-nonblocking", "expected >= 6 callers of add_socket, found %d" % n)
